@@ -96,7 +96,7 @@ def run_check(prop, info, tier, seed, only, verbose):
     t_solve = time.time()
     discharge(obs, timeout_ms)
     # undecided queries get a second, longer attempt (few at a time, so that a busy machine cannot flip a verdict)
-    retry = [o for o in obs if o.result not in ("unsat", "sat")]
+    retry = [o for o in obs if o.result not in ("unsat", "sat") and o.kind != "canary"]
     if retry:
         for o in retry:
             o.result = ""
